@@ -443,6 +443,42 @@ def sandwich_case(draw, formats, tier, tolerances=None):
     return {"cfg": cfg, "sources": sources}
 
 
+@st.composite
+def inplace_reuse_case(draw, formats, tier, tolerances=None):
+    """Two kinds of shared shape in one glyph group. S is drawn in its own glyph and repeated there 1-3 times, the repeats all
+    wearing one paint attribute the original lacks (the original black and opaque, the repeats one colour - or all at one
+    opacity): its first instance stays in place and is drawn in its own right. T occurs in two glyphs, so it is moved to a
+    shared definition. Anything that tidies attributes between a reference and its target has to tell the two apart."""
+    from ..gen_svg import placement, transform_cmds, unit_shape, view_box
+    from ..geom import amul, translate
+
+    cfg = draw(font_config(formats, transforms=False, max_upem=4096))
+    if tolerances is not None:
+        cfg["reuse_tolerance"] = draw(st.sampled_from(tolerances))
+    vb = draw(view_box())
+    step = 0.06 * min(vb[2], vb[3])
+    s_unit = draw(unit_shape(("polygon", "cubic", "quad")))
+    t_unit = draw(unit_shape(("rect", "polygon")))
+    _, ms = draw(placement(vb, "translate"))
+    _, mt = draw(placement(vb, "nuscale"))
+    attr = draw(st.sampled_from(["fill", "fill", "opacity", "both"]))
+    col = "#%06x" % draw(st.integers(1, 0xFFFFFF))
+    op = draw(st.sampled_from([0.5, 0.3, 0.75]))
+    s_nodes = [{"t": "p", "d": transform_cmds(s_unit, ms), "fill": {"k": "solid", "c": "#000000" if attr != "opacity" else col}, "op": 1.0, "tag": "lib0:identity"}]
+    for i in range(draw(st.integers(1, 3))):
+        s_nodes.append({"t": "p", "d": transform_cmds(s_unit, amul(translate((i + 1) * step, draw(st.integers(-2, 2)) * step), ms)),
+                        "fill": {"k": "solid", "c": col}, "op": 1.0 if attr == "fill" else op, "tag": "lib0:translate"})
+    t_a = {"t": "p", "d": transform_cmds(t_unit, mt), "fill": {"k": "solid", "c": "#%06x" % draw(st.integers(1, 0xFFFFFF))}, "op": 1.0, "tag": "lib1:identity"}
+    t_b = {"t": "p", "d": transform_cmds(t_unit, amul(translate(-step, step), mt)), "fill": {"k": "solid", "c": "#%06x" % draw(st.integers(1, 0xFFFFFF))},
+           "op": draw(st.sampled_from([1.0, 1.0, 0.6])), "tag": "lib1:translate"}
+    g0 = s_nodes + [t_a] if draw(st.sampled_from([True, True, False])) else [t_a] + s_nodes
+    sources = [{"model": {"vb": vb, "nodes": g0}, "cps": [0xE000]}, {"model": {"vb": vb, "nodes": [t_b]}, "cps": [0xE001]}]
+    if draw(st.booleans()):
+        sources.reverse()
+        sources[0]["cps"], sources[1]["cps"] = [0xE000], [0xE001]
+    return {"cfg": cfg, "sources": sources}
+
+
 def enumerate_cases(tier):
     yield from css_name_rows(["glyf_colr_1"])
 
